@@ -304,11 +304,20 @@ def signature(ctx):
     return hist.default_sig(ctx) + str(ctx.data.get('prefs'))
 
 
+def cfg_filter(cfg, rng):
+    if rng.random() < 0.1:
+        # Mode is a StrEnum: the plain string 'Tournament' / 'Cash-game' is
+        # documented to be the same thing as the member
+        cfg['mode_as_str'] = True
+    return cfg
+
+
 def run_shard(seed, shard, of, tier, deadline):
     return hist.run_history_shard(
         PROP, seed, shard, of, tier, deadline, cases=CASES,
         gen_kwargs=gen_kwargs, make_monitors=make_monitors,
-        nontrivial=nontrivial, pol_tweak=pol_tweak, signature=signature)
+        nontrivial=nontrivial, pol_tweak=pol_tweak, signature=signature,
+        cfg_filter=cfg_filter)
 
 
 def replay(payload):
